@@ -440,7 +440,10 @@ impl NodeState {
 // restore_payments reads of the channel: its node-assigned id and the two payment summaries of the current commitments.
 pub struct VxChanR { pub id0: ChannelId, pub enforcement_state: VxEsR, pub rest: VxChanRRest }
 #[verifier::external_body] pub struct VxChanRRest { _p: u8 }
-#[verifier::external_body] pub struct VxEsR { _p: u8 }
+// the enforcement state as far as a body may consult it here: the summaries (below) and the closed flag (a closing
+// signature was released - HTLCs of the last commitments are still pending then, so the flag must not switch the restore off)
+pub struct VxEsR { pub channel_closed: bool, pub vx_rest: VxEsRRest }
+#[verifier::external_body] pub struct VxEsRRest { _p: u8 }
 #[verifier::external_body] pub struct VxNodeR { _p: u8 }
 impl VxEsR {
     // EnforcementState::{incoming_payments_summary, payments_summary}(None, None): the summaries of the current
@@ -454,6 +457,17 @@ impl VxEsR {
     pub fn payments_summary(&self, a: Option<&CommitmentInfo2>, b: Option<&CommitmentInfo2>) -> (r: VxPayMap)
         ensures a.is_none() && b.is_none() ==> r@ == self.cur_out() { unimplemented!() }
 }
+pub uninterp spec fn payments_restored_mark(c: VxChanR) -> bool;
+// definitional: the marker stands for "every hash in flight on the channel is recorded with the channel's current amounts
+// under its id, every other hash is as before" (the two assertions of restore_payments); it has no other meaning
+pub open spec fn restored_facts(c: VxChanR, f: Map<PaymentHash, RoutedPayment>, p0: Map<PaymentHash, RoutedPayment>) -> bool {
+    &&& forall|h: PaymentHash| c.enforcement_state.cur_in().contains_key(h) || c.enforcement_state.cur_out().contains_key(h) ==>
+            #[trigger] recorded(f, p0, c.id0, c.enforcement_state.cur_in(), c.enforcement_state.cur_out(), h)
+    &&& forall|h: PaymentHash| !(c.enforcement_state.cur_in().contains_key(h) || c.enforcement_state.cur_out().contains_key(h)) ==>
+            (#[trigger] f.contains_key(h) <==> p0.contains_key(h)) && (p0.contains_key(h) ==> f[h] == p0[h])
+}
+#[verifier::external_body]
+pub proof fn vx_mark_payments_restored(c: VxChanR, f: Map<PaymentHash, RoutedPayment>, p0: Map<PaymentHash, RoutedPayment>) requires restored_facts(c, f, p0) ensures payments_restored_mark(c) {}
 impl VxNodeR {
     pub uninterp spec fn state_spec(&self) -> NodeState;          // the node state when the lock is taken
     #[verifier::external_body]
@@ -469,6 +483,10 @@ impl VxChanR {
     pub fn vx_cltv_bounds(&self, hash: &PaymentHash) -> (Option<u32>, Option<u32>) { unimplemented!() }
 
 //@fn vls-core/src/channel.rs :: impl Channel :: restore_payments props=C06 optclosures
+    ensures
+        // however the function returns, the ledger was rebuilt from this channel's current commitments (the effect lands in
+        // the node state behind its lock, so it is named by a marker that only the facts asserted at the end of the body give)
+        payments_restored_mark(*self),                                                                             //[C06.restore-payments.every-return-has-rebuilt-the-ledger]
 //@sub /for hash in hashes \{/ => let vx_hs = hashes.vx_elems(); for hash in vx_hs.iter() {
 //@sub /let payment = state\.payments\.entry\(\*hash\)\.or_insert_with\(\|\| RoutedPayment::new\(\)\);/ => state.payments.vx_ensure(*hash); let payment = state.payments.vx_get_mut(hash);
 //@sub /(?s)let min_incoming_cltv = self\s*\.enforcement_state.*?\}\);\s*let max_outgoing_cltv = self\s*\.enforcement_state.*?\}\);/ => let (min_incoming_cltv, max_outgoing_cltv) = self.vx_cltv_bounds(hash);
@@ -510,6 +528,8 @@ impl VxChanR {
             }
             assert(state.invoices == inv0);
             assert(ins == self.enforcement_state.cur_in() && outs == self.enforcement_state.cur_out());          //[C06.restore-payments.uses-current-commitments]
+            // the function may end only here: the marker below is the function's postcondition and can be had from these facts alone
+            vx_mark_payments_restored(*self, state.payments@, p0);
         }
 //@end
 }
